@@ -58,7 +58,7 @@ impl Scenario for C13 {
         "exploration"
     }
     fn rule(&self) -> String {
-        "Operation histories over one shared ControlPoints: (1) every sequence up to length 3 (quick) / 4 (thorough) over the alphabet {4 kinds x times {-1,0,1,2} x 2 values} — enumerated; (2) seeded histories of length <= 32 (one in ten: 40..140 operations over a pool of 70 times, so lists outgrow any small internal threshold and equal-time adds land on every index) built from 1–3 client scripts (two time-ordered, one arbitrary) interleaved by the scheduler, with fractional, negative and repeated times (finite, no -0.0, no NaN). After every add: lists == reference model, strictly increasing; lookups at every stored time, midpoints, before the first and beyond the last == linear-scan reference with the documented fall-backs. Also: bulk histories of 60..700 adds with unique values (ascending / descending / shuffled / front inserts / re-adds). Round 8: values one ulp beside pool values; direct ControlPoint trait calls (chk_* query, raw_* add). Round 10: bulk histories of ~4100..4300 points; pairs of values beyond the same clamp. Round 11: histories that start on a decoder-produced collection; lookup-burst-lookup (2^8 / 2^16+-1 / 2^17 adds between identical lookups); lists filled beyond 2^16 points. distinct_nontrivial = distinct plan hashes with >= 2 operations.".into()
+        "Operation histories over one shared ControlPoints: (1) every sequence up to length 3 (quick) / 4 (thorough) over the alphabet {4 kinds x times {-1,0,1,2} x 2 values} — enumerated; (2) seeded histories of length <= 32 (one in ten: 40..140 operations over a pool of 70 times, so lists outgrow any small internal threshold and equal-time adds land on every index) built from 1–3 client scripts (two time-ordered, one arbitrary) interleaved by the scheduler, with fractional, negative and repeated times (finite, no -0.0, no NaN). After every add: lists == reference model, strictly increasing; lookups at every stored time, midpoints, before the first and beyond the last == linear-scan reference with the documented fall-backs. Also: bulk histories of 60..700 adds with unique values (ascending / descending / shuffled / front inserts / re-adds). Round 8: values one ulp beside pool values; direct ControlPoint trait calls (chk_* query, raw_* add). Round 10: bulk histories of ~4100..4300 points; pairs of values beyond the same clamp. Round 11: histories that start on a decoder-produced collection; lookup-burst-lookup (2^8 / 2^16+-1 / 2^17 adds between identical lookups); lists filled beyond 2^16 points. Round 13: subnormal times. distinct_nontrivial = distinct plan hashes with >= 2 operations.".into()
     }
     fn assumptions(&self) -> Vec<String> {
         vec![
